@@ -240,6 +240,8 @@ func selectedAll(inputs []refmodel.Field) []refmodel.SelectedLeaf {
 type LogMeta struct {
 	Event string // signature, for reports
 	Vals  []any  // one per input of the event that produced the log
+	// Malformed: the log carries the event's topics but its data is cut short: it cannot be decoded and yields no row
+	Malformed bool
 }
 
 // MakeLog builds a log of the declaration's event carrying vals.
@@ -557,6 +559,9 @@ func ProjectBlock(d *Decl, src string, chainID uint64, b *simnode.Block, look Re
 					continue
 				}
 				meta, _ := l.Meta.(*LogMeta)
+				if meta != nil && meta.Malformed {
+					continue
+				}
 				if meta == nil || len(meta.Vals) != len(d.Inputs) {
 					panic("model: matching log without usable Meta")
 				}
